@@ -1095,8 +1095,23 @@ func (s *BgpServer) getBestFromLocalCallbackLocked(peer *peer, rfList []bgp.Fami
 	}
 
 	for _, family := range peer.toGlobalFamilies(rfList) {
+		// With ADD-PATH every path of a destination is a candidate, but no more
+		// than send-max of them may be advertised (the incremental propagation
+		// enforces the same limit). Paths that were already sent keep their
+		// slot; the others take what is left and are remembered as filtered.
+		addPathSend := peer.isAddPathSendEnabled(family)
+		sendMax := int(peer.getAddPathSendMax(family))
+		added := make(map[string]int)
 		for _, path := range s.getPossibleBest(peer, family) {
 			if p := s.filterpath(peer, path, nil); p != nil {
+				if addPathSend && !p.IsWithdraw && !peer.hasPathAlreadyBeenSent(p) {
+					prefix := p.GetPrefix()
+					if int(peer.getRoutesCount(family, prefix))+added[prefix] >= sendMax {
+						peer.setPathSendMaxFiltered(p)
+						continue
+					}
+					added[prefix]++
+				}
 				pathList = append(pathList, p)
 			} else {
 				filtered = append(filtered, filteredPathForPeer(peer, path))
